@@ -32,4 +32,16 @@ inductive TotpStored
   | matchedStep | currentStep | unknown
 deriving DecidableEq, Repr
 
+/-- functions that pick one of possibly several cookies named auth_cookie -/
+inductive AuthFn
+  | checkAuth | updateAuthCookieAuthlevel | logoutHandler
+deriving DecidableEq, Repr
+
+/-- which one they pick -/
+inductive CookieChoice
+  | last      -- loop over r.Cookies() that keeps the last match
+  | first     -- r.Cookie(name) / loop with break
+  | unknown
+deriving DecidableEq, Repr
+
 end KM.SessionSites
